@@ -78,3 +78,45 @@ example : stabilises 2 false ⟨0, [.Z, .I]⟩ [some 0, some 0, none, none] = tr
 example : stabilises 1 true ⟨0, [.Y]⟩ [some 0, some 2] = true := by decide                    -- |0⟩ + i|1⟩
 
 end Stim.C11
+
+namespace Stim.C11
+open Stim Stim.Amps
+
+/-! ## A global phase on the matrix is immaterial to the oracle -/
+
+theorem mulOmega_mulOmega (a : Amp) (j k : Nat) : ((a.mulOmega j).mulOmega k).beq ((a.mulOmega k).mulOmega j) = true := by
+  cases a with
+  | none => simp [Amp.mulOmega, Amp.beq]
+  | some x => simp [Amp.mulOmega, Amp.beq]; omega
+
+theorem beq_mulOmega (a b : Amp) (k : Nat) : (a.mulOmega k).beq (b.mulOmega k) = a.beq b := by
+  cases a <;> cases b <;> simp [Amp.mulOmega, Amp.beq]
+  rw [Bool.eq_iff_iff]; simp only [beq_iff_eq]; omega
+
+/-- multiplying every entry by `ω^k` -/
+def scaleM (k : Nat) (M : List (List Amp)) : List (List Amp) := M.map (·.map (·.mulOmega k))
+
+theorem getD_scaleM (k : Nat) (M : List (List Amp)) (r c : Nat) :
+    ((scaleM k M).getD r []).getD c none = (((M.getD r []).getD c none)).mulOmega k := by
+  simp only [scaleM, List.getD_eq_getElem?_getD, List.getElem?_map]
+  cases hr : M[r]? with
+  | none => simp [Amp.mulOmega]
+  | some row =>
+    simp only [Option.map_some, Option.getD_some, List.getElem?_map]
+    cases hc : row[c]? <;> simp [Amp.mulOmega]
+
+theorem beq_comm_phase (a b : Amp) (j k : Nat) :
+    ((a.mulOmega k).mulOmega j).beq ((b.mulOmega k).mulOmega j) = (a.mulOmega j).beq (b.mulOmega j) := by
+  rw [beq_mulOmega, beq_mulOmega, beq_mulOmega]
+
+/-- **`intertwines` does not see a global phase `ω^k` of the matrix.** -/
+theorem intertwines_scale (n : Nat) (little : Bool) (M : List (List Amp)) (P Q : PS) (k : Nat) :
+    intertwines n little (scaleM k M) P Q = intertwines n little M P Q := by
+  simp only [intertwines, getD_scaleM]
+  congr 1; funext r; congr 1; funext c
+  cases h1 : ((M.getD r []).getD (Nat.xor c (xMask n little P.ps)) none) <;>
+  cases h2 : ((M.getD (Nat.xor r (xMask n little Q.ps)) []).getD c none) <;>
+  simp [Amp.mulOmega, Amp.beq]
+  rw [Bool.eq_iff_iff]; simp only [beq_iff_eq]; omega
+
+end Stim.C11
